@@ -4,7 +4,9 @@
 cd /verif
 [ -z "$(git -C /repo status --short | grep -v Cargo.lock)" ] || { echo "/repo is not clean"; exit 2; }
 out=/verif/.work/seed_regression.txt; : > $out
-for d in seeded/*/; do
+# optional arguments: seed directory name patterns (default: all), e.g. 'r4-*' 'r5-*' 'r6-*'
+PATS="${@:-*}"
+for pat in $PATS; do for d in seeded/$pat/; do
   s=$(basename $d)
   ids=$(jq -r '.caught_by_quick | join(" ")' $d/meta.json)
   git -C /repo apply /verif/$d/patch.diff || { echo "$s patch does not apply" | tee -a $out; continue; }
@@ -14,5 +16,5 @@ for d in seeded/*/; do
     echo "$s $id exit=$rc violations=$n" | tee -a $out
   done
   git -C /repo checkout -- .
-done
+done; done
 echo "missed: $(grep -vc 'exit=1' $out)" | tee -a $out
